@@ -58,7 +58,11 @@ class ClosureMonitor(Monitor):
         st = self.run.state(mid, j)
         winners = sum(1 for rs in st["r"].values() if rs["st"] == "WINNER")
         for o in market.blotter:
-            rs = st["r"][self.run.rkey(o)]
+            rs = st["r"].get(self.run.rkey(o))
+            if rs is None:
+                # an order for a runner that is not part of the market: there is no result for it
+                self.res.probes["c20.order_on_a_runner_outside_the_market"] += 1
+                continue
             exp_dh = 1 if mk["winners"] == 0 else (winners if winners > mk["winners"] else None)
             got = (o.runner_status, o.market_type, o.each_way_divisor, o.number_of_dead_heat_winners)
             want = (rs["st"], mk["market_type"], mk.get("ew_divisor"), exp_dh)
